@@ -72,6 +72,9 @@ class Spec:
     # translate only from the statement whose source text starts with this (searched through `with` blocks) to the end of its block;
     # what precedes it (argument checks, query construction) is outside the translated part and named in the generator's docstring
     start_at: str = ""
+    # the value of the translated part when control reaches the end of the (sliced) body without a `return`: a Lean expression
+    # over the locals (for slices of a function that go on to use what they computed)
+    tail_result: str = ""
 
 
 def apply_stmt_rewrites(fn: ast.FunctionDef, spec: "Spec") -> ast.FunctionDef:
@@ -102,17 +105,21 @@ def slice_from(fn: ast.FunctionDef, start_at: str, qualname: str) -> ast.Functio
     if not start_at:
         return fn
 
-    def find(body):
+    def find(body, through_if=False):
         for i, st in enumerate(body):
             if ast.unparse(st).startswith(start_at):
                 return body[i:]
             if isinstance(st, ast.With):
-                r = find(st.body)
+                r = find(st.body, through_if)
+                if r is not None:
+                    return r
+            if through_if and isinstance(st, ast.If):
+                r = find(st.body, through_if) or find(st.orelse, through_if)
                 if r is not None:
                     return r
         return None
 
-    rest = find(fn.body)
+    rest = find(fn.body) or find(fn.body, through_if=True)  # (bodies of `if` statements are searched only when nothing else matched)
     if rest is None:
         raise Untranslatable(f"{qualname}: no statement starting with {start_at!r}")
     import copy
@@ -352,7 +359,8 @@ class Tr:
         body that were already bound before the loop); names first bound inside the body are local to one
         iteration.  `break` / `continue` / `else:` / `return` inside the loop are not accepted."""
         ind = "  " * depth
-        if st.orelse or not isinstance(st.target, ast.Name):
+        tuple_target = isinstance(st.target, ast.Tuple) and all(isinstance(x, ast.Name) for x in st.target.elts)
+        if st.orelse or not (isinstance(st.target, ast.Name) or tuple_target):
             raise Untranslatable(f"{self.s.qualname}: for-loop shape {ast.unparse(st).splitlines()[0]!r}")
         for n in ast.walk(st):
             if isinstance(n, (ast.Break, ast.Continue, ast.Return, ast.Yield, ast.YieldFrom, ast.While)):
@@ -363,10 +371,13 @@ class Tr:
         names = [self.s.rename.get(v, v) for v in carried]
         state = names[0] if len(names) == 1 else "(" + ", ".join(names) + ")"
         saved = set(self.defined)
-        self.defined.add(st.target.id)
+        targets = [x.id for x in st.target.elts] if tuple_target else [st.target.id]
+        self.defined.update(targets)
         body = self.block(list(st.body), depth + 2, tail=state)
         self.defined = saved
-        var = self.s.rename.get(st.target.id, st.target.id)
+        var = ", ".join(self.s.rename.get(t, t) for t in targets)
+        if tuple_target:
+            var = "(" + var + ")"
         return (
             f"let {state} := ({self.e(st.iter)}).foldl (fun {state} {var} =>\n{ind}    {body}) {state}\n"
             f"{ind}{self.block(rest, depth, tail=tail)}"
@@ -465,7 +476,8 @@ class Tr:
     def function(self, fn: ast.FunctionDef) -> str:
         binders = " ".join(f"({n} : {t})" for n, t in self.s.params)
         self.defined = {a.arg for a in fn.args.args} | ({fn.args.vararg.arg} if fn.args.vararg else set())
-        body = self.block(list(fn.body))
+        self.defined |= {n for n, _ in self.s.params}  # (the Lean binders are bound too: locals of the untranslated part of a sliced function)
+        body = self.block(list(fn.body), tail=(self.s.tail_result or None))
         return f"def {self.s.lean_name} {binders} : {self.s.ret} :=\n  {body}\n"
 
 
